@@ -12,8 +12,10 @@ import (
 	"encoding/binary"
 	"fmt"
 	"net"
+	"os"
 	"runtime"
 	"sort"
+	"strconv"
 	"strings"
 	"sync"
 	"sync/atomic"
@@ -38,6 +40,8 @@ type cut struct {
 
 type connRec struct {
 	idx    int
+	rport  int      // the client's local port of this connection
+	conn   net.Conn // for kill()
 	mu     sync.Mutex
 	data   []byte
 	parsed int  // offset up to which complete frames have been counted
@@ -81,7 +85,10 @@ func (c *collector) acceptLoop(ln net.Listener) {
 			return
 		}
 		c.mu.Lock()
-		rec := &connRec{idx: len(c.conns)}
+		rec := &connRec{idx: len(c.conns), conn: conn}
+		if ta, ok := conn.RemoteAddr().(*net.TCPAddr); ok {
+			rec.rport = ta.Port
+		}
 		c.conns = append(c.conns, rec)
 		var ct cut
 		ct.After = -1
@@ -209,6 +216,74 @@ func (c *collector) allDrained() bool {
 		}
 	}
 	return true
+}
+
+// lastConn returns the record of the connection accepted last (the one a single sequential
+// sender is using, or was using before it reconnected).
+func (c *collector) lastConn() *connRec {
+	c.mu.Lock()
+	defer c.mu.Unlock()
+	for i := len(c.conns) - 1; i >= 0; i-- {
+		return c.conns[i]
+	}
+	return nil
+}
+
+func (r *connRec) wasCut() bool {
+	r.mu.Lock()
+	defer r.mu.Unlock()
+	return r.cutBy && r.done
+}
+
+// kill closes every connection still open (the collector process dies).
+func (c *collector) kill(rst bool) {
+	c.mu.Lock()
+	conns := append([]*connRec(nil), c.conns...)
+	c.mu.Unlock()
+	for _, r := range conns {
+		r.mu.Lock()
+		d := r.done
+		if !d {
+			r.cutBy = true
+		}
+		r.mu.Unlock()
+		if !d {
+			if tc, ok := r.conn.(*net.TCPConn); ok && rst {
+				tc.SetLinger(0)
+			}
+			r.conn.Close()
+		}
+	}
+}
+
+func (c *collector) port() int {
+	_, p, _ := net.SplitHostPort(c.addr)
+	n, _ := strconv.Atoi(p)
+	return n
+}
+
+// clientSocketAlive reports whether the kernel still lists a TCP socket with the given local
+// and remote port on loopback in state ESTABLISHED or CLOSE_WAIT (i.e. a socket on which a
+// write can still be accepted). Once the peer's reset has been processed the socket is gone
+// from the table, and every later write on it fails: that is a fact about the socket, not a
+// guess about timing.
+func clientSocketAlive(lport, rport int) (alive, readable bool) {
+	b, err := os.ReadFile("/proc/net/tcp")
+	if err != nil {
+		return true, false
+	}
+	want := fmt.Sprintf(":%04X", lport)
+	wantR := fmt.Sprintf(":%04X", rport)
+	for _, ln := range strings.Split(string(b), "\n")[1:] {
+		f := strings.Fields(ln)
+		if len(f) < 4 {
+			continue
+		}
+		if strings.HasSuffix(f[1], want) && strings.HasSuffix(f[2], wantR) && (f[3] == "01" || f[3] == "08") {
+			return true, true
+		}
+	}
+	return false, true
 }
 
 func (c *collector) down() {
@@ -339,6 +414,7 @@ type sendEv struct {
 	pcode   int64
 	lic     int64 // expected license hash
 	size    int
+	dead    bool // issued after the kernel had dropped the client's socket of a connection the collector closed
 }
 
 type scenario struct {
@@ -356,6 +432,7 @@ type scenario struct {
 	relicense  bool // change the client's default license between two phases of sends
 	poison     bool // now and then a sender hands over a pack whose Write panics half-way
 	batchDrain bool // queue mode without the background goroutine: the caller drains with SendAndClear()
+	spaced     bool // single sender, one cut: after the cut each send waits until the client's socket is seen dead (see clientSocketAlive)
 	idleMs     int  // direct mode: client Timeout set to idleMs, connection left idle for longer between two phases
 }
 
@@ -506,6 +583,7 @@ func runScenario(c *vlib.Ctx, sc scenario, r *vlib.Rand, label string) {
 		}()
 	}
 	var swg sync.WaitGroup
+	sentSinceCut := false // spaced scenarios have one sender: plain variable
 	phases := [][2]int{{0, sc.perSender}}
 	if sc.idleMs > 0 {
 		cl.Timeout = time.Duration(sc.idleMs) * time.Millisecond
@@ -541,6 +619,30 @@ func runScenario(c *vlib.Ctx, sc scenario, r *vlib.Rand, label string) {
 						pp.Pcode = 4711
 						vlib.Catch(func() { cl.SendFlush(pp, q%2 == 0) })
 						atomic.AddInt64(&poisonSent, 1)
+					}
+					if sc.spaced {
+						if rec := col.lastConn(); rec != nil && rec.wasCut() {
+							// the collector closed this connection. After a FIN the client's socket
+							// lives on (CLOSE_WAIT) until its next write draws a reset; after a reset
+							// it is gone. Wait (bounded) for it to go; if it does, this send is
+							// judged: it can no longer be written to that socket.
+							for w := 0; w < 400; w++ {
+								alive, ok := clientSocketAlive(rec.rport, col.port())
+								if !ok {
+									break
+								}
+								if !alive {
+									it.ev.dead = true
+									atomic.AddInt64(&deadJudged, 1)
+									break
+								}
+								if w >= 100 && !sentSinceCut {
+									break // FIN: nothing happens before the next write
+								}
+								time.Sleep(time.Millisecond)
+							}
+							sentSinceCut = true
+						}
 					}
 					it.ev.t0 = int64(time.Since(start))
 					var e error
@@ -839,6 +941,11 @@ func runScenario(c *vlib.Ctx, sc scenario, r *vlib.Rand, label string) {
 			}
 			for i := range all {
 				e := &all[i]
+				if e.err == "" && seen[e.payload] == 0 && e.dead {
+					c.Fail("loss:unreported-on-dead-connection/"+kindKey, "a send issued after the kernel had already dropped the client's socket (the collector had closed the connection and its reset had been processed) returned nil, and the pack never arrived: the failed write was detectable and was not reported",
+						detail(map[string]interface{}{"sender": e.sender, "seq": e.seq}))
+					continue
+				}
 				if e.err == "" && seen[e.payload] == 0 {
 					if firstFinal >= 0 && e.t0 > firstFinal && !snaps[final].cutBy {
 						c.Fail("loss:after-recovery/"+kindKey, "a send acknowledged after the client had reconnected to a healthy collector never arrived",
@@ -855,6 +962,9 @@ func runScenario(c *vlib.Ctx, sc scenario, r *vlib.Rand, label string) {
 	c.Count("sends", int64(len(all)))
 	c.Count("sends_acked", int64(acked))
 	c.Count("sends_error", int64(len(all)-acked))
+	if sc.useQueue {
+		c.Count("queue_full_rejections/"+sc.kind, int64(len(all)-acked))
+	}
 	c.Count("frames_received", int64(len(arrivals)))
 	c.Count("connections", int64(len(snaps)))
 	c.Count("cuts_executed", int64(atomic.LoadInt32(&col.cutsDone)))
@@ -947,6 +1057,8 @@ func mini(a, b int) int {
 
 var gomaxes = []int{1, 2, 4, 16}
 
+var deadJudged int64
+
 // frameSizes predicts the sizes of the frames sender 0 will send (same PRNG forks as runScenario).
 func cutPoints(r *vlib.Rand, i int) []cut {
 	// The header is 22 bytes. Small packs are 40..300 bytes. Enumerate: offset inside the first
@@ -968,6 +1080,189 @@ func cutPoints(r *vlib.Rand, i int) []cut {
 		s = append(s, cut{After: after, RST: r.Bool(), Refuse: []int{0, 1, 2, 5}[r.Intn(4)]})
 	}
 	return s
+}
+
+// failoverScenario: a client with several listed servers, which go down and come back between
+// phases of sends (a server going down also drops its open connection). Judged: frames that
+// arrive anywhere are whole and unduplicated, and once the changes stop with at least one
+// listed server accepting connections, a later send gets through ("the client reconnects on a
+// later send"), whichever position that server has in the list and whatever the history was.
+func failoverScenario(c *vlib.Ctx, r *vlib.Rand, i int, label string) {
+	old := runtime.GOMAXPROCS(gomaxes[i%4])
+	defer runtime.GOMAXPROCS(old)
+	n := r.Range(2, 3)
+	cols := make([]*collector, n)
+	var addrs []string
+	for k := range cols {
+		col, err := newCollector(nil)
+		if err != nil {
+			c.Inconclusive(label, "cannot listen on loopback: "+err.Error())
+			return
+		}
+		defer col.close()
+		cols[k] = col
+		addrs = append(addrs, col.addr)
+	}
+	cl := oneway.NewOneWayTcpClientVerif(oneway.WithServers(addrs), oneway.WithLicense("failover"), oneway.WithPcode(77), oneway.WithOid(5))
+	defer cl.VerifCancel()
+	defer cl.VerifCloseLocked()
+	phases := r.Range(2, 5)
+	var hist []string
+	var all []sendEv
+	seq := 0
+	upSet := func(final bool) []bool {
+		for {
+			u := make([]bool, n)
+			any := false
+			for k := range u {
+				u[k] = r.Intn(2) == 0
+				any = any || u[k]
+			}
+			if any || (!final && r.Intn(4) == 0) {
+				return u
+			}
+		}
+	}
+	send := func(k int) (sendEv, error) {
+		p, pcode := mkPack(r, 0, seq, false)
+		pl := pack.ToBytesPack(p)
+		ev := sendEv{sender: 0, seq: seq, payload: string(pl), pcode: pcode, size: len(pl) + 22}
+		seq++
+		e := cl.SendFlush(p, true)
+		if e != nil {
+			ev.err = e.Error()
+		}
+		all = append(all, ev)
+		return ev, e
+	}
+	received := func() int64 {
+		var t int64
+		for _, col := range cols {
+			t += atomic.LoadInt64(&col.frames)
+		}
+		return t
+	}
+	var up []bool
+	for ph := 0; ph < phases; ph++ {
+		final := ph == phases-1
+		up = upSet(final)
+		for k, col := range cols {
+			if up[k] {
+				if err := col.up(); err != nil {
+					c.Inconclusive(label, "cannot listen again: "+err.Error())
+					return
+				}
+			} else {
+				col.down()
+				col.kill(r.Bool())
+			}
+		}
+		hist = append(hist, fmt.Sprint(up))
+		if final {
+			break
+		}
+		for k := r.Range(1, 8); k > 0; k-- {
+			send(k)
+		}
+	}
+	// the changes have stopped; at least one listed server is up
+	recovered := false
+	tries := 0
+	for ; tries < 200 && !recovered; tries++ {
+		before := received()
+		if _, e := send(0); e == nil {
+			for w := 0; w < 2000; w++ {
+				if received() > before {
+					recovered = true
+					break
+				}
+				time.Sleep(time.Millisecond)
+			}
+		} else {
+			time.Sleep(time.Millisecond)
+		}
+	}
+	detail := map[string]interface{}{"servers": n, "up_sets_per_phase": hist, "final_up": fmt.Sprint(up), "probe_errors": errSummary(all)}
+	if !recovered {
+		c.Fail("recovery:no-progress/failover", fmt.Sprintf("after the servers stopped changing, %d further sends did not get one pack through although a listed server was accepting connections", tries), detail)
+		return
+	}
+	var after []sendEv
+	for k := 0; k < 5; k++ {
+		ev, _ := send(0)
+		after = append(after, ev)
+	}
+	cl.VerifCloseLocked()
+	// read everything to EOF (barrier connection per collector that is up)
+	deadline := time.Now().Add(120 * time.Second)
+	for k, col := range cols {
+		if !up[k] {
+			continue
+		}
+		bc, berr := net.Dial("tcp", col.addr)
+		if berr != nil {
+			c.Inconclusive(label, "barrier connection failed: "+berr.Error())
+			return
+		}
+		bc.Write([]byte(barrierMark))
+		bc.Close()
+		for !col.barrierSeen() || !col.allDrained() {
+			if time.Now().After(deadline) {
+				c.Inconclusive(label, "collector did not read every connection to EOF within 120 s")
+				return
+			}
+			time.Sleep(time.Millisecond)
+		}
+	}
+	byPayload := map[string]*sendEv{}
+	for k := range all {
+		byPayload[all[k].payload] = &all[k]
+	}
+	seen := map[string]int{}
+	frames := 0
+	for k, col := range cols {
+		for _, sn := range col.snapshot() {
+			fs, _, bad := parseStream(sn.idx, sn.data)
+			if bad != "" {
+				c.Fail("stream:malformed-header/failover", "a connection's byte stream does not parse into frames: "+bad, detail)
+			}
+			for _, f := range fs {
+				frames++
+				ev := byPayload[string(f.payload)]
+				if ev == nil {
+					c.Fail("frame:not-a-sent-pack/failover", "a received frame's payload is not the encoding of any pack that was sent", detail)
+					continue
+				}
+				seen[ev.payload]++
+				if seen[ev.payload] == 2 {
+					c.Fail("frame:duplicated/failover", fmt.Sprintf("the same pack was received twice (server %d)", k), detail)
+				}
+			}
+		}
+	}
+	for _, ev := range after {
+		if ev.err != "" {
+			c.Fail("send:error-after-recovery/failover", "a send after the client had reconnected to a healthy server returned an error: "+ev.err, detail)
+		} else if seen[ev.payload] == 0 {
+			c.Fail("loss:after-recovery/failover", "a send acknowledged after the client had reconnected to a healthy server never arrived", detail)
+		}
+	}
+	c.Count("failover_histories", 1)
+	c.Count("scenarios/failover", 1)
+	c.Count("sends", int64(len(all)))
+	c.Count("frames_received", int64(frames))
+	c.Count("recoveries_observed", 1)
+	first := -1
+	for k := range up {
+		if up[k] && first < 0 {
+			first = k
+		}
+	}
+	c.SetAdd("failover_final_first_up_position", fmt.Sprintf("%d-of-%d", first, n))
+	c.DistinctStr("failover|" + strings.Join(hist, ";"))
+	if c.WantSample() && i < 2 {
+		c.Sample(map[string]interface{}{"scenario": "failover", "servers": n, "up_sets_per_phase": hist, "sends": len(all), "frames": frames, "tries_until_recovered": tries})
+	}
 }
 
 func main() {
@@ -1076,6 +1371,23 @@ func main() {
 	c.Cases("healthy-idle", scale(3, 24), func(i int, r *vlib.Rand) {
 		runScenario(c, scenario{kind: "healthy-idle", senders: r.Range(1, 3), perSender: 10, gomax: gomaxes[i%4], idleMs: 1500}, r, fmt.Sprint("healthy-idle#", i))
 	})
+	// queue mode with a queue far smaller than the bursts: sends are refused while it is full;
+	// whatever was accepted (nil) must still arrive exactly once, in order
+	c.Cases("queue-overflow", scale(10, 160), func(i int, r *vlib.Rand) {
+		runScenario(c, scenario{kind: "queue-overflow", senders: r.Range(1, 8), perSender: r.Range(80, 300), gomax: gomaxes[i%4], useQueue: true, queueSize: r.Range(1, 12), bg: true}, r, fmt.Sprint("queue-overflow#", i))
+	})
+	// one sender, one cut, and after the cut every send waits until the client's socket is dead:
+	// from then on a send either reports an error or arrives (on a new connection)
+	c.Cases("peer-close-spaced", scale(24, 400), func(i int, r *vlib.Rand) {
+		sch := []cut{{After: r.Range(0, 3000), RST: i%2 == 0, Refuse: 0}}
+		if i%5 == 0 {
+			sch[0].After = (i / 5) % 24
+		}
+		runScenario(c, scenario{kind: "peer-close-spaced", senders: 1, perSender: r.Range(20, 60), gomax: gomaxes[i%4], schedule: sch, spaced: true}, r, fmt.Sprint("peer-close-spaced#", i))
+	})
+	c.Cases("failover", scale(24, 400), func(i int, r *vlib.Rand) {
+		failoverScenario(c, r, i, fmt.Sprint("failover#", i))
+	})
 	// production path: singleton with its background goroutine, healthy connection
 	c.Cases("singleton-healthy", scale(2, 16), func(i int, r *vlib.Rand) {
 		runScenario(c, scenario{kind: "singleton-healthy", senders: r.Range(1, 6), perSender: 60, gomax: gomaxes[(i+2)%4], singleton: true}, r, fmt.Sprint("singleton-healthy#", i))
@@ -1089,6 +1401,12 @@ func main() {
 	c.Floor("frames_received", 2000/per/3, c.Counter("frames_received"))
 	c.Floor("cuts_executed", 20/per, c.Counter("cuts_executed"))
 	c.Floor("recoveries_observed", 20/per, c.Counter("recoveries_observed"))
+	c.Count("sends_judged_after_socket_death", atomic.LoadInt64(&deadJudged))
+	if !isRace {
+		c.Floor("sends_judged_after_socket_death", 1, atomic.LoadInt64(&deadJudged))
+		c.Floor("queue_full_rejections/queue-overflow", 1, c.Counter("queue_full_rejections/queue-overflow"))
+		c.Floor("failover_histories", 1, c.Counter("failover_histories"))
+	}
 	c.Finish()
 	_ = sort.Ints
 }
